@@ -67,6 +67,8 @@ PRODUCERS = [
     ("format", "(\"@\" % (\"s\"))"),
     ("concat", "(\"\" + \"s\")"),
     ("reduce", "reduce(func (acc, it) => acc + it, \"\", ls)"),
+    ("reduce-with-a-callback-defined-earlier", "reduce(two, \"\", ls)"),
+    ("map-with-a-callback-defined-earlier", "map(ident, ls).0"),
     ("module-out-expression", "mo{}"),
     ("module-out-expression-with-argument", "mo{v = \"s\"}"),
     ("module-result-field", "mt{}.x"),
